@@ -16,12 +16,12 @@ ENGINE = 'history'
 BUDGET = {'quick': 6000, 'thorough': 150000}
 WALL = {'quick': 45, 'thorough': 1500}
 RULE = ('trash-put of one symlink per case (to file, dir, nothing, another link, itself; relative/absolute target; target inside/outside the '
-        'volume), written with 0-3 trailing slashes, reached directly / through another symlinked directory, then trash-restore of it; '
+        'volume), written with 0-3 trailing slashes, with and without -f / -v / -i (answered yes), reached directly / through another symlinked directory, then trash-restore of it; '
         'non-trivial = the link resolves to something (or has trailing slashes); distinct = (link kind, target volume relation, trailing '
         'slashes, reached through link, outcome)')
 ASSUMPTIONS = ["'link-to-file/' is ENOTDIR for the kernel: failing is legitimate there, following is not"]
 PROBES = ['cross-volume-fallback', 'link-trashed', 'trailing-slash-on-dirlink-trashed', 'legitimate-enotdir-refusal', 'target-other-volume', 'reached-through-link',
-          'restored-identical-link', 'dangling', 'chain', 'selfloop']
+          'restored-identical-link', 'dangling', 'chain', 'selfloop', 'with-force', 'with-interactive-yes']
 TECHNIQUE = 'deterministic simulation of put and restore on generated symlink configurations; snapshot oracle on the link target, lstat/readlink of the payload, recorded location'
 LEVEL_TEXT = 'seeded exploration of link kinds x spellings x volumes; the target subtree must be snapshot-identical after every command'
 LEVEL_NOTE = 'trusted: snapshot function (readlink translated back to virtual paths), model decoder'
@@ -89,7 +89,10 @@ def gen(rng):
             steps.append(['f', v + '/.Trash-%d' % uid, 'blocker', 0o600])
         putopts = ['--home-fallback']
         env['TRASH_ENABLE_HOME_FALLBACK'] = '1'
-    procs = [{'argv': ['trash-put'] + putopts + ['--', arg], 'env': env, 'cwd': home, 'uid': uid},
+    # mode options must not change what the argument denotes: -f only silences names that do not exist at all, -i asks
+    mode = rng.choice([[], [], ['-f'], ['-f', '-v'], ['-v'], ['-i'], ['--force'], ['-f', '-i']])
+    putopts = mode + putopts
+    procs = [{'argv': ['trash-put'] + putopts + ['--', arg], 'env': env, 'cwd': home, 'uid': uid, 'stdin': 'y\ny\n'},
              {'argv': ['trash-restore', '--sort=path', '/'], 'env': env, 'cwd': '/', 'uid': uid, 'stdin': '?'}]
     return {
         'world': {'mounts': L['mounts'], 'steps': steps},
@@ -133,6 +136,10 @@ def check(sim, case, st):
     r = sim.run(put)
     if '--home-fallback' in put['argv']:
         st.probes['cross-volume-fallback'] += 1
+    if any(a in ('-f', '--force') for a in put['argv']):
+        st.probes['with-force'] += 1
+    if '-i' in put['argv']:
+        st.probes['with-interactive-yes'] += 1
     st.sims += 1
     st.ops += r.nops
     snap1 = sim.snap()
@@ -165,7 +172,11 @@ def check(sim, case, st):
     outs, _p = OP.judge(sim.root, snap0, snap1, [nm], mounts)
     oc = outs[0]
     outcome = oc.state
-    if r.exit == 0:
+    force = any(a in ('-f', '--force') for a in put['argv'])
+    if r.exit == 0 and oc.state == 'untouched' and force and slashes and tkind != 'dir':
+        # 'link-to-file/' and 'dangling/' name nothing (ENOTDIR / ENOENT): under -f a name that does not exist is skipped silently
+        st.probes['legitimate-force-skip-of-enotdir-name'] += 1
+    elif r.exit == 0:
         if oc.state != 'trashed':
             bad('exit0-not-trashed', 'exit 0 but the link is in state %s %s' % (oc.state, oc.why))
         else:
@@ -184,7 +195,7 @@ def check(sim, case, st):
             st.probes['legitimate-enotdir-refusal'] += 1
         elif not slashes:
             bad('plain-link-not-trashed', 'trash-put failed on a symlink written without trailing slash')
-    st.distinct.add((note.get('kind'), tvol != ML.volume_of(mounts, posixpath.dirname(loc)) if tvol else None, slashes, bool(note.get('via')), outcome))
+    st.distinct.add((any(a in ('-f', '--force') for a in put['argv']), note.get('kind'), tvol != ML.volume_of(mounts, posixpath.dirname(loc)) if tvol else None, slashes, bool(note.get('via')), outcome))
     # restore recreates the same link
     if oc.state == 'trashed' and len(procs) > 1 and posixpath.basename(procs[1]['argv'][0]) == 'trash-restore':
         def user(out):
